@@ -9,8 +9,14 @@ package c04
 //     everything is UTF-8; remote-write when everything is UTF-8), alone and in one body
 //     together with other streams, as a log line and as a metric point,
 //   * under a name spelling that sanitises to the same set ('.' for a '_'),
+//   * under a value spelling that differs only behind the 100-byte cap of sanitizeLabels
+//     (gen.SameSanitized: by the documented sanitisation the same stored set),
 // and its adversarial neighbours (gen.Neighbours: a character moved across the name/value
-// boundary, two values swapped, an empty-valued label added, a label dropped, ...).
+// boundary, two values swapped, an empty-valued label added, a label dropped, ...; first of
+// all the length-limit neighbours: a long label name - names are not capped, about one in
+// six is stretched to 60..400 bytes - changed only in its last byte or at offset
+// 63/64/99/100/127/128/254/255, one byte longer or shorter; a value changed at byte 99, a
+// value of exactly 100 bytes against a longer one with the same first 100 bytes).
 // Oracle (metamorphic, the hash is never recomputed): all pushes of S yield one
 // fingerprint; S and its neighbours yield pairwise different fingerprints; every stored
 // label document is valid JSON and decodes to exactly the sanitised set of its push.
@@ -46,7 +52,7 @@ func genIdentity(rt *rapid.T) identityCase {
 	if rapid.IntRange(0, 4).Draw(rt, "bernstein") == 0 {
 		c.FPType = 0
 	}
-	o := gen.LabelOpt{Min: 1, Max: 7, Long: true}
+	o := gen.LabelOpt{Min: 1, Max: 7, Long: true, LongNames: true}
 	switch rapid.IntRange(0, 3).Draw(rt, "alphabet") {
 	case 0: // spellable by all four encoders
 		o.Names, o.Val = gen.NamesGoIdent, gen.StrOpt{UTF8Only: true}
@@ -213,6 +219,16 @@ func predIdentity(c identityCase, o *evid.Obs) error {
 		o.Tag("alias-spelling")
 	}
 
+	// spellings that differ only behind the value cap: same sanitised set, same fingerprint
+	for i, alt := range gen.SameSanitized(S) {
+		if i >= 3 {
+			break
+		}
+		pushes = append(pushes, push{fmt.Sprintf("loki-json v1, value differing only behind the 100-byte cap (variant %d)", i), gen.LokiJSON,
+			single(gen.LokiJSON, alt, c.Perms[0], gen.KindLog, 0, 210+i), 0})
+		o.Tag("same-set-behind-value-cap")
+	}
+
 	var fp0 uint64
 	known := false
 	for i, p := range pushes {
@@ -265,6 +281,26 @@ func predIdentity(c identityCase, o *evid.Obs) error {
 	}
 	o.Tag(fmt.Sprintf("neighbours=%d", min(len(nb), 12)/4*4))
 
+	maxName := 0
+	for _, l := range S {
+		if len(l.Name) > maxName {
+			maxName = len(l.Name)
+		}
+	}
+	switch {
+	case maxName > 255:
+		o.Tag("name-len:>255")
+	case maxName > 128:
+		o.Tag("name-len:129..255")
+	case maxName > 100:
+		o.Tag("name-len:101..128")
+	case maxName > 64:
+		o.Tag("name-len:65..100")
+	case maxName > 32:
+		o.Tag("name-len:33..64")
+	default:
+		o.Tag("name-len:<=32")
+	}
 	nonAlnum := false
 	tagged := map[string]bool{}
 	for _, l := range S {
